@@ -657,6 +657,10 @@ func (c *ctx) runTruth(r *vh.RNG) {
 				c.caseTruth(which, 3, want, e.render(style{legacy: legacy}, nil, 0), "", "minimal")
 				c.caseTruth(which, 3, want, e.render(style{legacy: legacy, redundant: 8}, nil, 0), "", "full")
 				c.caseTruth(which, 3, want, e.render(style{legacy: legacy, wild: true}, nil, 0), "", "patterns")
+				if !legacy {
+					// a pipe tail does not change which documents the filter selects
+					c.caseTruth(which, 3, want, e.render(style{}, nil, 0)+" | fields fk, ft", "", "pipe")
+				}
 			}
 		}
 	}
@@ -693,7 +697,11 @@ func (c *ctx) runTruth(r *vh.RNG) {
 			which = "legacy"
 		}
 		st := style{legacy: legacy, redundant: r.Intn(4), fancy: true}
-		c.caseTruth(which, k, want, e.render(st, r, 0), "", "random")
+		q := e.render(st, r, 0)
+		if !legacy && r.Chance(1, 4) {
+			q += []string{" | fields fk", "| fields except x", " |fields a, b.c", "\n| fields 'q f'"}[r.Intn(4)]
+		}
+		c.caseTruth(which, k, want, q, "", "random")
 	}
 }
 
